@@ -443,14 +443,13 @@ export class SchemaPrintingContext {
   constructor(options: SchemaPrintingContextOptions) {
     this.refPathTemplate = options.refPathTemplate;
     this.definitionContainerKey = options.definitionContainerKey;
-    this.collectedDefinitions = {};
-    this.inProgressDefinitions = {};
-    this.namedTypeSchemaOverrides = Object.fromEntries(
-      Object.entries(options.namedTypeSchemaOverrides ?? {}).map(([name, parser]) => [
-        name,
-        (parser as ParserFromRuntype)._runtype,
-      ]),
-    );
+    // (maps keyed by type names have no prototype: `toString`, `constructor`, ... are legal type names)
+    this.collectedDefinitions = Object.create(null);
+    this.inProgressDefinitions = Object.create(null);
+    this.namedTypeSchemaOverrides = Object.create(null);
+    for (const [name, parser] of Object.entries(options.namedTypeSchemaOverrides ?? {})) {
+      this.namedTypeSchemaOverrides[name] = (parser as ParserFromRuntype)._runtype;
+    }
   }
 
   get refTemplate(): string {
@@ -1866,7 +1865,7 @@ export class AnyOfDiscriminatedRuntype extends BaseRuntype {
     });
   }
   private getSchemaVariantRefs(ctx: SchemaContext): Array<{ key: string; ref: string }> {
-    const unionHash = this.hash({ seen: {} });
+    const unionHash = this.hash({ seen: Object.create(null) });
     return Object.entries(this.schemaMapping).map(([key, schema]) => ({
       key,
       ref: this.ensureSchemaVariantRef(schema, key, unionHash, ctx),
@@ -2510,7 +2509,7 @@ export abstract class BaseRefRuntype extends BaseRuntype {
   }
 }
 
-const namedRuntypes: Record<string, Runtype> = {};
+const namedRuntypes: Record<string, Runtype> = Object.create(null);
 
 class RuntimeRefRuntype extends BaseRefRuntype {
   getNamedRuntypes(): Record<string, Runtype> {
@@ -2592,7 +2591,7 @@ class ParserFromRuntype implements BeffParser<any> {
   schema(): JSONSchema7 {
     const ctx = {
       path: [],
-      seen: {},
+      seen: Object.create(null),
       mode: "flat" as const,
     };
     return this._runtype.schema(ctx);
@@ -2600,7 +2599,7 @@ class ParserFromRuntype implements BeffParser<any> {
   schemaWithContext(schemaPrintingContext: SchemaPrintingContext): JSONSchema7 {
     const ctx = {
       path: [],
-      seen: {},
+      seen: Object.create(null),
       mode: "contextual" as const,
       printingContext: schemaPrintingContext,
     };
@@ -2609,8 +2608,8 @@ class ParserFromRuntype implements BeffParser<any> {
   describe(): string {
     const ctx: DescribeContext = {
       activeRefs: new Set(),
-      definitions: {},
-      refCounts: {},
+      definitions: Object.create(null),
+      refCounts: Object.create(null),
       visitedRefs: new Set(),
     };
     collectDescribeRefs(this._runtype, ctx);
@@ -2629,7 +2628,7 @@ class ParserFromRuntype implements BeffParser<any> {
   }
   hash(): number {
     const ctx = {
-      seen: {},
+      seen: Object.create(null),
     };
     return this._runtype.hash(ctx);
   }
